@@ -393,13 +393,15 @@ func judge(prop string, seed uint64, failures []Replay, info *prepInfo, bins map
 		}
 		// confirm in a fresh process first
 		isErratic := false
-		if _, err := confirmReplay(bin, &f, f.Class, dir, realDir, false, "", 4); err != nil {
+		first, err := confirmReplay(bin, &f, f.Class, dir, realDir, false, "", 4)
+		if err != nil {
 			if f.Isolated {
 				// The run had a process to itself and failed; the same plan and decisions pass
 				// now. Either the harness is nondeterministic, or the library is (an answer
 				// that depends on map iteration order, on an address, on the time). Replay it
 				// a number of times: if the failure comes back at all, it is the library's.
-				if _, err2 := confirmReplay(bin, &f, f.Class, dir, realDir, false, "", 24); err2 != nil {
+				var err2 error
+				if first, err2 = confirmReplay(bin, &f, f.Class, dir, realDir, false, "", 24); err2 != nil {
 					// neither the library's nor anybody's: remembered, and fatal only if nothing else explains the run
 					unexplained = append(unexplained, fmt.Sprintf("failing run %s (class %s) was executed in a process of its own and did not reproduce in 28 replays (%v)", f.Subseed, f.Class, err))
 					seenClass[key]--
@@ -439,9 +441,15 @@ func judge(prop string, seed uint64, failures []Replay, info *prepInfo, bins map
 		}
 		final, err := confirmReplay(bin, &min, f.Class, dir, realDir, true, logPrefix, attempts)
 		if err != nil {
+			// The original failed in its worker and again in a fresh process (`first`). If it
+			// does not come back now, the library's answer for this plan varies from one
+			// execution to the next; what was seen twice stands, with or without a trace.
 			min, tried = f, 0
 			if final, err = confirmReplay(bin, &min, f.Class, dir, realDir, true, logPrefix, attempts+2); err != nil {
-				fatal2("confirmed failure (class %s) stopped reproducing: %v", f.Class, err)
+				isErratic = true
+				if final, err = confirmReplay(bin, &min, f.Class, dir, realDir, true, logPrefix, 24); err != nil {
+					final = first
+				}
 			}
 		}
 		pick(final, f.Class)
